@@ -408,14 +408,17 @@ def representable (k : Copy) : Packet → Bool
   | .disconnect reason props =>
     (match k with | .client => reason == .NormalDisconnection && props.isNone | .broker => true)
 
-/-- `Packet::write` dispatch / `V4::write` match. DEV: in the broker every arm except ConnAck
-    requires the properties to be `None`; anything else falls into `_ => unreachable!()`. -/
+/-- `Packet::write` dispatch / `V4::write` match. DEV: in the broker every arm except ConnAck and
+    Publish (whose properties are ignored) requires the properties to be `None`; anything else
+    falls into `_ => unreachable!()`. -/
 def encParts (k : Copy) : Packet → Except Err Enc
   | .connect level keepAlive clientId clean props will login =>
     if props.isSome || willHasProps will then .error .panic else .ok (encConnect k level keepAlive clientId clean will login)
   | .connack sp code _ => encConnAck k sp code
   | .publish dup qos retain topic pkid payload props =>
-    if props.isSome then .error .panic else encPublish k dup qos retain topic pkid payload
+    -- broker: `Packet::Publish(publish, _)` — MQTT 5 properties are dropped towards a 3.1.1
+    -- connection; the client's struct cannot hold any (not representable)
+    if props.isSome && k == .client then .error .panic else encPublish k dup qos retain topic pkid payload
   | .puback pkid _ props => if props.isSome then .error .panic else .ok (encAck 0x40 pkid)
   | .pubrec pkid _ props => if props.isSome then .error .panic else .ok (encAck 0x50 pkid)
   | .pubrel pkid _ props => if props.isSome then .error .panic else .ok (encAck 0x62 pkid)
